@@ -391,7 +391,11 @@ func (r *v2run) alone(pick int) {
 			time.Sleep(3 * time.Nanosecond)
 		}
 	}
-	r.emit(obs{E: "QA", P: p, Held: r.heldCounts()})
+	note := ""
+	if unfilledBase(dividerByName(r.cfg.Div), r.cfg.Prios, r.cfg.H, p, uint(len(r.held))) {
+		note = "unfilled-base-division"
+	}
+	r.emit(obs{E: "QA", P: p, Held: r.heldCounts(), Note: note})
 }
 
 // finish: close everything, release everything, drain; the discipline must close Output() and Err().
@@ -449,8 +453,8 @@ func (r *v2run) finish() {
 				}
 				r.emit(obs{E: "EC"})
 				synctest.Wait()
-				if !r.exited.Load() {
-					r.emit(obs{E: "Leak", Note: "scheduling goroutine has not exited after Err() closed"})
+				if n := moduleGoroutines(); !r.exited.Load() || n > 0 {
+					r.emit(obs{E: "Leak", K: n, Note: "goroutines of the library remain after Err() closed"})
 				}
 				return
 			}
